@@ -137,6 +137,12 @@ func (og *OverlapGenerator) GenerateOverlap(chunkText string) *OverlapResult {
 		overlap = og.truncateOverlap(overlap)
 	}
 
+	// An overlap that is still below the minimum is not worth duplicating
+	if len(overlap) < og.config.MinOverlap {
+		overlap = ""
+		sentenceCount = 0
+	}
+
 	return &OverlapResult{
 		Text:          overlap,
 		CharCount:     len(overlap),
